@@ -39,9 +39,11 @@ const (
 	vfhInvalid            // 200, invalid rule set
 	vfhUnsupported        // 200, text/plain (generated, not asserted)
 	vfh404                // not found -> source gone
-	vfh500                // server error (generated, not asserted: the statement names only not-found and communication errors)
+	vfhSrvErr             // the endpoint (or the proxy in front of it) fails: 500/502/503/504/429, partly with an HTML error page (see vfhAssertServerErrors)
 	vfhRefused            // connection refused
 	vfhTimeout            // request timed out
+	vfhBroken             // the request reaches the server, the transfer of the response breaks off (a member of vfhFaults)
+	vfhOkNewParam         // 200, new valid content, Content-Type with parameters (see vfhAssertTypeParams)
 	vfhFail               // next processor call fails (no poll)
 	vfhOkNew2             // second endpoint: new valid content
 	vfh404x2              // second endpoint: not found
@@ -49,15 +51,19 @@ const (
 	vfhN
 )
 
-var vfhNames = [vfhN]string{"e1:200-new", "e1:200-unchanged", "e1:200-empty", "e1:200-invalid", "e1:200-unsupported-type", "e1:404", "e1:500",
-	"e1:refused", "e1:timeout", "processor-fails-next", "e2:200-new", "e2:404", "e2:200-invalid"}
+var vfhNames = [vfhN]string{"e1:200-new", "e1:200-unchanged", "e1:200-empty", "e1:200-invalid", "e1:200-unsupported-type", "e1:404", "e1:server-error",
+	"e1:refused", "e1:timeout", "e1:transfer-breaks-off", "e1:200-new-content-type-with-parameters", "processor-fails-next", "e2:200-new", "e2:404", "e2:200-invalid"}
 
 // outcome of one endpoint as the scripted server / transport serves it
 type vfhOutcome struct {
-	kind    int // vfhOkNew (=200 with body), vfhEmpty, vfhInvalid, vfhUnsupported, vfh404, vfh500, vfhRefused, vfhTimeout
+	kind    int // vfhOkNew (=200 with body), vfhEmpty, vfhInvalid, vfhUnsupported, vfh404, vfhSrvErr, vfhRefused, vfhTimeout, vfhBroken, vfhOkNewParam
 	body    string
 	ctype   string
-	content string // content id when valid
+	content string    // content id when valid
+	status  int       // vfhSrvErr: the status code answered
+	retry   string    // vfhSrvErr: Retry-After header ("" = none)
+	fault   *vfhFault // vfhBroken: how the transfer of body breaks off
+	cut     int       // vfhBroken: number of body bytes that are sent
 }
 
 type vfhScript struct {
@@ -126,8 +132,17 @@ func (s *vfhScript) ServeHTTP(w http.ResponseWriter, req *http.Request) {
 	switch o.kind {
 	case vfh404:
 		w.WriteHeader(http.StatusNotFound)
-	case vfh500:
-		w.WriteHeader(http.StatusInternalServerError)
+	case vfhSrvErr:
+		if o.ctype != "" {
+			w.Header().Set("Content-Type", o.ctype)
+		}
+		if o.retry != "" {
+			w.Header().Set("Retry-After", o.retry)
+		}
+		w.WriteHeader(o.status)
+		_, _ = w.Write([]byte(o.body))
+	case vfhBroken:
+		vfhServeFault(w, o)
 	default:
 		w.Header().Set("Content-Type", o.ctype)
 		w.WriteHeader(http.StatusOK)
@@ -210,6 +225,12 @@ type vfhWorld struct {
 	nth    int                          // symbols applied in this sequence
 	docs   []string                     // members served in this sequence
 	st     *vfStats
+	// transport faults: forced = the member every "transfer-breaks-off" of this sequence uses (nil = rotating with the
+	// sequence); bodyPick varies what is being transferred; noDeadline = the polls of this mode have no deadline, so
+	// members that stall are not used
+	forced     *vfhFault
+	bodyPick   int
+	noDeadline bool
 }
 
 func vfhDocType(d vfDoc) string {
@@ -269,8 +290,18 @@ func (w *vfhWorld) apply(sym int) string {
 	case vfh404x2:
 		l = "e2"
 		o = vfhOutcome{kind: vfh404}
-	case vfh500:
-		o = vfhOutcome{kind: vfh500}
+	case vfhSrvErr:
+		o = vfhServerErrors[(vfDocOffset+w.salt+w.nth)%len(vfhServerErrors)]
+		w.docs = append(w.docs, fmt.Sprintf("server-error:%d", o.status))
+		w.st.add(fmt.Sprintf("http_server_error[%d]", o.status), 1)
+	case vfhBroken:
+		o = w.broken(l)
+	case vfhOkNewParam:
+		o = w.newValid(l)
+		o.kind = vfhOkNewParam
+		o.ctype += vfhTypeParams[(vfDocOffset+w.salt+w.nth)%len(vfhTypeParams)]
+		w.docs = append(w.docs, "content-type:"+o.ctype)
+		w.st.add("http_content_type_with_parameters", 1)
 	case vfhRefused:
 		o = vfhOutcome{kind: vfhRefused}
 	case vfhTimeout:
@@ -285,10 +316,43 @@ func (w *vfhWorld) apply(sym int) string {
 	return l
 }
 
+// broken: the request reaches the server, the response does not arrive completely. What the endpoint tries to send is
+// the version loaded last or a new valid version (of several rules) that nobody ever receives completely.
+func (w *vfhWorld) broken(l string) vfhOutcome {
+	e := w.eps[l]
+	f := w.forced
+	for k := vfDocOffset + w.salt + w.nth; f == nil; k++ {
+		if f = vfhFaults[k%len(vfhFaults)]; f.stall && w.noDeadline {
+			f = nil
+		}
+	}
+	body, ctype := e.lastValid.body, e.lastValid.ctype
+	if (w.salt+w.nth+w.bodyPick)%2 == 0 || e.lastValid.content == "" {
+		e.version++
+		d := &vfhDocSpec{id: fmt.Sprintf("%s%s#%d-never-transferred-completely", w.tag, l, e.version), n: 2 + (w.salt+w.nth)%3,
+			json: (w.salt+w.nth+w.bodyPick)%4 == 1, salt: w.salt}
+		body, ctype = d.render(), d.ctype()
+	}
+	o := vfhOutcome{kind: vfhBroken, fault: f, body: body, ctype: ctype, cut: f.offset(body, (w.salt+w.nth)*7919)}
+	w.docs = append(w.docs, fmt.Sprintf("fault:%s@%d of %d bytes", f.name, o.cut, len(body)))
+	w.st.add("http_fault["+f.name+"]", 1)
+	return o
+}
+
 func (w *vfhWorld) state(l string) vfState {
 	switch o := w.eps[l].cur; o.kind {
 	case vfhOkNew:
 		return vfState{Kind: vfValid, Content: o.content}
+	case vfhOkNewParam:
+		if vfhAssertTypeParams {
+			return vfState{Kind: vfValid, Content: o.content}
+		}
+	case vfhSrvErr:
+		if vfhAssertServerErrors {
+			return vfState{Kind: vfUnreachable}
+		}
+	case vfhBroken:
+		return vfState{Kind: vfUnreachable}
 	case vfhEmpty:
 		return vfState{Kind: vfEmpty}
 	case vfhInvalid:
@@ -310,13 +374,41 @@ func (w *vfhWorld) holder(content string) string {
 	return ""
 }
 
-func vfhClassify(m *vfMismatch, _ *vfStep) string {
+func vfhClassify(m *vfMismatch, s *vfStep) string {
 	// documentation: "in case of network issues, like dns errors, timeouts and alike, the rule sets previously
 	// received from the corresponding endpoints are preserved" - the provider unloads them
 	if m.Kind == "unexpected-call" && m.st.Kind == vfUnreachable && m.call.Op == "D" {
+		switch s.Ctx[m.Source] {
+		case "server-error":
+			return vfSigHTTPServerErr
+		case "broken-transfer":
+			return vfSigHTTPBroken
+		}
 		return "http-unload-on-network-error"
 	}
+	if s.Ctx[m.Source] == "content-type-with-parameters" && (m.Kind == "missing-call" || m.Kind == "final-not-latest-valid-content") {
+		return vfSigHTTPTypeParams
+	}
+	if m.Kind == "call-with-content-no-source-holds" && strings.Contains(m.call.Content, "~") {
+		return vfSigHTTPOtherDoc
+	}
 	return ""
+}
+
+// ctx tells vfhClassify what kind of outcome the endpoints serve now.
+func (w *vfhWorld) ctx() map[string]string {
+	c := map[string]string{}
+	for l, e := range w.eps {
+		switch e.cur.kind {
+		case vfhSrvErr:
+			c[l] = "server-error"
+		case vfhBroken:
+			c[l] = "broken-transfer"
+		case vfhOkNewParam:
+			c[l] = "content-type-with-parameters"
+		}
+	}
+	return c
 }
 
 func vfhEndpoints(baseURL string, paths ...string) ([]*ruleSetEndpoint, error) {
@@ -339,12 +431,17 @@ func vfhEndpoints(baseURL string, paths ...string) ([]*ruleSetEndpoint, error) {
 
 func TestC18(t *testing.T) {
 	r := core.Begin("C18", "fault_enumeration")
-	r.Rule("http_endpoint: exhaustive sequences (length <=4 quick / <=5 thorough) over 13 symbols (endpoint 1: 200 new/unchanged/empty/invalid/unsupported type, 404, 500, " +
-		"connection refused, timeout; processor failure; endpoint 2: 200 new, 404, invalid; the empty and the invalid bodies rotate over doc_members_empty / doc_members_invalid as a function of the sequence); each symbol sets the outcome and runs provider.watchChanges for that endpoint; one more polling round " +
-		"at the end (longest length: 10 of the 13 symbols); plus seeded sequences against the real scheduler loop (newProvider with watch_interval, Start). Oracle: vfDecide per poll on the outcome served, active rule sets = " +
-		"latest valid content of existing endpoints at the end. Non-trivial: >=2 successful processor calls.")
+	r.Rule("http_endpoint: exhaustive sequences (length <=4 quick / <=5 thorough) over 15 symbols (endpoint 1: 200 new/unchanged/empty/invalid/unsupported type, 404, server error, " +
+		"connection refused, timeout, transfer of the response breaks off, 200 new with a parameterised content type; processor failure; endpoint 2: 200 new, 404, invalid; the empty and the invalid bodies, the server errors (http_server_error[..]) " +
+		"and the transport faults (http_fault_members) rotate over their members as a function of the sequence); each symbol sets the outcome and runs provider.watchChanges for that endpoint; one more polling round " +
+		"at the end (longest length: 10 of the 15 symbols exhaustively plus a seeded sample of sequences with broken transfers); every transport fault member with and without a rule set loaded, followed by good polls; documents of hundreds to ten thousands of rules (up to several MiB) " +
+		"changed at the head, in the middle and at the very end, cut, shrunk, broken in transfer (http_large_*); plus seeded sequences against the real scheduler loop (newProvider with watch_interval, Start). " +
+		"Oracle: vfDecide per poll on the outcome served, active rule sets = latest valid content of existing endpoints at the end; the content id of a rule set covers all of its rules. Non-trivial: >=2 successful processor calls.")
 	r.Assume("http.DefaultTransport is wrapped in the test binary only to turn a scripted refused/timeout outcome into a real dial error (bound, non-listening loopback port / elapsed deadline)",
-		"outcome mapping: refused/timeout = source still exists (previous kept); 404 = gone (unloaded); empty body (no rule set in it) = unloaded; 500 and unsupported content type are generated but not asserted",
+		"outcome mapping: refused/timeout/response broken off in transfer (before its first byte, inside the header section, body shorter than Content-Length, chunked body without terminating chunk, stalled until the poll's deadline) = source still exists (previous kept); "+
+			"404 = gone (unloaded); empty body (no rule set in it) = unloaded; unsupported content type is generated but not asserted",
+		fmt.Sprintf("5xx / 429 answers = the endpoint is failing, the source still exists (previous kept): asserted=%v; a content type with parameters (application/yaml; charset=utf-8) is the media type named: asserted=%v", vfhAssertServerErrors, vfhAssertTypeParams),
+		"a body that simply ends with the connection (no Content-Length, no chunking) cannot be told from a complete one and is not generated",
 		"responses carry no cache headers, so the (enabled) HTTP cache never answers")
 
 	script := &vfhScript{outcomes: map[string]*vfhOutcome{}}
@@ -358,15 +455,28 @@ func TestC18(t *testing.T) {
 	http.DefaultTransport = &vfhTransport{real: http.DefaultTransport, script: script, refused: refused}
 	vfInitDocs(r)
 
-	if prov, mode, names, _, ok := vfReplayCase(r); ok {
-		if seq, known := vfSymbols(names, vfhNames[:]); prov == "http_endpoint" && known {
+	if prov, mode, names, variant, ok := vfReplayCase(r); ok {
+		if seq, known := vfSymbols(names, vflNames[:]); prov == "http_endpoint" && mode == "direct-large" && known {
 			st := &vfStats{}
-			if mode == "direct" {
+			rules := 0
+			_, _ = fmt.Sscanf(strings.TrimSpace(variant), "rules=%d", &rules)
+			vfhRunLarge(r, script, srv.URL, "/replay/large", rules, seq, st)
+			r.Eval(1)
+			vfFlushStats(r, st)
+		} else if seq, known = vfSymbols(names, vfhNames[:]); prov == "http_endpoint" && known {
+			st := &vfStats{}
+			if mode == "direct" || mode == "direct-fault-sweep" {
 				if eps, err := vfhEndpoints(srv.URL, "/replay/e1", "/replay/e2"); err == nil {
 					cch, _ := memory.NewCache(nil, nil, nil)
 					logger := zerolog.Nop()
 					ctx := logger.WithContext(cache.WithContext(context.Background(), cch))
 					w := &vfhWorld{script: script, eps: map[string]*vfhEndpointState{"e1": {path: "/replay/e1", ep: eps[0]}, "e2": {path: "/replay/e2", ep: eps[1]}}}
+					if mode == "direct-fault-sweep" {
+						// the variant names the member and the body choice of the sweep case
+						var name string
+						_, _ = fmt.Sscanf(strings.TrimSpace(variant), "member=%s body=%d", &name, &w.bodyPick)
+						w.forced, w.tag = vfhFaultByName(name), "f-"
+					}
 					w.eps["e1"].cur, w.eps["e2"].cur = vfhOutcome{kind: vfh404}, vfhOutcome{kind: vfh404}
 					vfhRunDirect(r, ctx, w, seq, st)
 				}
@@ -387,6 +497,12 @@ func TestC18(t *testing.T) {
 	vfhDirect(r, script, srv.URL)
 	r.Set("http_direct_wall_s", time.Since(t0).Seconds())
 	t0 = time.Now()
+	vfhFaultSweep(r, script, srv.URL)
+	r.Set("http_fault_sweep_wall_s", time.Since(t0).Seconds())
+	t0 = time.Now()
+	vfhLarge(r, script, srv.URL)
+	r.Set("http_large_wall_s", time.Since(t0).Seconds())
+	t0 = time.Now()
 	vfhPoll(r, script, srv.URL)
 	r.Set("http_poll_wall_s", time.Since(t0).Seconds())
 	pprof.StopCPUProfile()
@@ -400,6 +516,9 @@ func TestC18(t *testing.T) {
 	r.Require("http_invalid_kept_steps", r.Counter("steps_invalid_expect_previous_kept"), 500)
 	r.Require("http_unreachable_steps_with_applied_rule_set", r.Counter("steps_unreachable_expect_previous_kept"), 500)
 	r.Require("http_poll_steps_quiesced", r.Counter("http_poll_steps_quiesced"), 20)
+	r.Require("http_fault_sweep_sequences", r.Counter("http_fault_sweep_sequences"), int64(len(vfhFaults)))
+	r.Require("http_large_polls", r.Counter("http_large_polls"), 20)
+	r.Require("http_large_documents_served_over_2MiB", r.Counter("http_large_documents_served_over_2MiB"), 3)
 	r.End()
 }
 
@@ -418,14 +537,10 @@ func vfhDirect(r *core.Run, script *vfhScript, baseURL string) {
 	for i := range full {
 		full[i] = i
 	}
-	// longest length: without the three symbols that add least (the two unasserted outcomes and e2:invalid)
+	// longest length: without the symbols that add least (unsupported type, server error, content type with parameters, e2:invalid);
+	// the transport faults take part in a seeded sample of sequences of that length instead of the enumeration
 	reduced := []int{vfhOkNew, vfhOkSame, vfhEmpty, vfhInvalid, vfh404, vfhRefused, vfhTimeout, vfhFail, vfhOkNew2, vfh404x2}
-	for n := 1; n <= maxLen; n++ {
-		alpha := full
-		if n == maxLen {
-			alpha = reduced
-		}
-		total := vfPow(len(alpha), n)
+	runAll := func(n, total int, sequence func(idx int, digits []int)) {
 		vfParallel(r, total, func(wk int) (func(int, *vfStats), func()) {
 			p1, p2 := vfhPaths("w", wk)
 			eps, err := vfhEndpoints(baseURL, p1, p2)
@@ -438,10 +553,7 @@ func vfhDirect(r *core.Run, script *vfhScript, baseURL string) {
 			book := &vfCaseBook{}
 			digits := make([]int, n)
 			run := func(idx int, st *vfStats) {
-				vfDigits(idx, len(alpha), n, digits)
-				for i := range digits {
-					digits[i] = alpha[digits[i]]
-				}
+				sequence(idx, digits)
 				w := &vfhWorld{script: script, eps: map[string]*vfhEndpointState{"e1": {path: p1, ep: eps[0]}, "e2": {path: p2, ep: eps[1]}}}
 				w.eps["e1"].cur, w.eps["e2"].cur = vfhOutcome{kind: vfh404}, vfhOutcome{kind: vfh404}
 				script.set(p1, w.eps["e1"].cur)
@@ -459,6 +571,34 @@ func vfhDirect(r *core.Run, script *vfhScript, baseURL string) {
 			return run, func() { book.flush(r) }
 		})
 	}
+	for n := 1; n <= maxLen; n++ {
+		alpha := full
+		if n == maxLen {
+			alpha = reduced
+		}
+		runAll(n, vfPow(len(alpha), n), func(idx int, digits []int) {
+			vfDigits(idx, len(alpha), n, digits)
+			for i := range digits {
+				digits[i] = alpha[digits[i]]
+			}
+		})
+	}
+	// sequences of the longest length with at least one broken transfer
+	rng := r.Stream("c18-http-direct-faults")
+	sample := make([][]int, r.Pick(1500, 20000))
+	for k := range sample {
+		seq := make([]int, maxLen)
+		for i := range seq {
+			seq[i] = reduced[rng.IntN(len(reduced))]
+		}
+		seq[rng.IntN(maxLen)] = vfhBroken
+		if rng.IntN(3) == 0 {
+			seq[rng.IntN(maxLen)] = vfhBroken
+		}
+		sample[k] = seq
+	}
+	runAll(maxLen, len(sample), func(idx int, digits []int) { copy(digits, sample[idx]) })
+	r.Count("http_direct_sampled_sequences_with_broken_transfer", len(sample))
 	r.Set("http_alphabet", vfhNames[:])
 	r.Set("http_max_sequence_length", maxLen)
 }
@@ -467,13 +607,18 @@ func vfhRunDirect(r *core.Run, ctx context.Context, w *vfhWorld, seq []int, st *
 	rec := vfNewRecorder()
 	o := vfNewOracle(st)
 	w.salt, w.st = vfDocSalt(seq, 0), st
-	p := &provider{p: rec, l: zerolog.Nop(), configured: true}
+	p := &provider{p: vfhProc{rec}, l: zerolog.Nop(), configured: true}
 	step := 0
 	poll := func(l, action string) {
 		step++
 		e := w.eps[l]
-		s := &vfStep{Action: action, States: map[string]vfState{l: w.state(l)}, Holder: w.holder, Classify: vfhClassify, Generic: vfGenericHTTP}
-		_ = p.watchChanges(ctx, e.ep)
+		s := &vfStep{Action: action, States: map[string]vfState{l: w.state(l)}, Holder: w.holder, Classify: vfhClassify, Generic: vfGenericHTTP, Ctx: w.ctx()}
+		pctx, cancel := ctx, context.CancelFunc(func() {})
+		if e.cur.kind == vfhBroken && e.cur.fault.stall {
+			pctx, cancel = context.WithTimeout(ctx, vfhPollDeadline)
+		}
+		_ = p.watchChanges(pctx, e.ep)
+		cancel()
 		o.step(step, s, rec.take())
 		st.add("http_polls", 1)
 	}
@@ -500,8 +645,12 @@ func vfhRunDirect(r *core.Run, ctx context.Context, w *vfhWorld, seq []int, st *
 		}
 	}
 	truth := map[string]vfState{"e1": w.state("e1"), "e2": w.state("e2")}
-	o.final(step+1, truth, rec.snapshot(), &vfStep{Classify: vfhClassify, Generic: vfGenericHTTP})
-	bad := o.report(r, "http_endpoint", "direct", vfhSeqNames(seq), fmt.Sprintf(" docs=%v", w.docs))
+	o.final(step+1, truth, rec.snapshot(), &vfStep{Classify: vfhClassify, Generic: vfGenericHTTP, Ctx: w.ctx()})
+	mode, variant := "direct", fmt.Sprintf(" docs=%v", w.docs)
+	if w.forced != nil {
+		mode, variant = "direct-fault-sweep", fmt.Sprintf(" member=%s body=%d docs=%v", w.forced.name, w.bodyPick, w.docs)
+	}
+	bad := o.report(r, "http_endpoint", mode, vfhSeqNames(seq), variant)
 	return o.nOK, bad
 }
 
@@ -543,7 +692,7 @@ func vfhPoll(r *core.Run, script *vfhScript, baseURL string) {
 func vfhRunPoll(r *core.Run, script *vfhScript, baseURL string, n int, seq []int, st *vfStats) (int, bool) {
 	p1, p2 := vfhPaths("poll", n)
 	w := &vfhWorld{script: script, tag: fmt.Sprintf("p%d-", n), eps: map[string]*vfhEndpointState{"e1": {path: p1}, "e2": {path: p2}},
-		salt: vfDocSalt(seq, 1), st: st}
+		salt: vfDocSalt(seq, 1), st: st, noDeadline: true}
 	w.eps["e1"].cur, w.eps["e2"].cur = vfhOutcome{kind: vfh404}, vfhOutcome{kind: vfh404}
 	script.set(p1, w.eps["e1"].cur)
 	script.set(p2, w.eps["e2"].cur)
@@ -554,7 +703,7 @@ func vfhRunPoll(r *core.Run, script *vfhScript, baseURL string, n int, seq []int
 		"endpoints":      []map[string]any{{"url": baseURL + p1}, {"url": baseURL + p2}},
 	}}}
 	cch, _ := memory.NewCache(nil, nil, nil)
-	prov, err := newProvider(conf, cch, rec, zerolog.Nop())
+	prov, err := newProvider(conf, cch, vfhProc{rec}, zerolog.Nop())
 	if err != nil {
 		r.Inconclusive("http poll: newProvider: " + err.Error())
 		return 0, false
@@ -601,7 +750,7 @@ func vfhRunPoll(r *core.Run, script *vfhScript, baseURL string, n int, seq []int
 		}
 		st.add("http_poll_steps_quiesced", 1)
 		s := &vfStep{Action: "set " + vfhNames[sym] + "; one poll of the real scheduler loop", States: map[string]vfState{l: w.state(l)},
-			Holder: w.holder, Classify: vfhClassify, Generic: vfGenericHTTP}
+			Holder: w.holder, Classify: vfhClassify, Generic: vfGenericHTTP, Ctx: w.ctx()}
 		o.step(step, s, rec.take())
 	}
 	for k := 0; k < 2; k++ {
@@ -611,11 +760,11 @@ func vfhRunPoll(r *core.Run, script *vfhScript, baseURL string, n int, seq []int
 				return 0, false
 			}
 			st.add("http_poll_steps_quiesced", 1)
-			o.step(step, &vfStep{Action: "settle poll " + l, States: map[string]vfState{l: w.state(l)}, Holder: w.holder, Classify: vfhClassify, Generic: vfGenericHTTP}, rec.take())
+			o.step(step, &vfStep{Action: "settle poll " + l, States: map[string]vfState{l: w.state(l)}, Holder: w.holder, Classify: vfhClassify, Generic: vfGenericHTTP, Ctx: w.ctx()}, rec.take())
 		}
 	}
 	truth := map[string]vfState{"e1": w.state("e1"), "e2": w.state("e2")}
-	o.final(step+1, truth, rec.snapshot(), &vfStep{Classify: vfhClassify, Generic: vfGenericHTTP})
+	o.final(step+1, truth, rec.snapshot(), &vfStep{Classify: vfhClassify, Generic: vfGenericHTTP, Ctx: w.ctx()})
 	o.report(r, "http_endpoint", "poll", vfhSeqNames(seq), fmt.Sprintf(" docs=%v", w.docs))
 	return o.nOK, true
 }
